@@ -594,6 +594,77 @@ func main() {
 		}
 		addDec(w, st, cv.Lit(enc), kind, seen)
 	}
+	// --- decoder: long-form elements nested at offset k > 0 of a list whose declared length overruns
+	// the enclosing list by d bytes (d <= k and d > k), with nothing / enough bytes after the list:
+	// the length guards of extractLongLen must be relative to the position inside the slice being
+	// decoded, not to its start ---
+	for _, k := range []int{1, 2, 3, 5, 9, 60} {
+		for d := -1; d <= 4; d++ {
+			for form := 0; form < 4; form++ {
+				inner := 56 + r.Intn(3)
+				if form%2 == 1 {
+					inner = 256 + r.Intn(3)
+				}
+				declared := inner + d
+				var hdr []byte
+				base := byte(0xb7)
+				if form >= 2 {
+					base = 0xf7
+				}
+				if declared < 256 {
+					hdr = []byte{base + 1, byte(declared)}
+				} else {
+					hdr = []byte{base + 2, byte(declared >> 8), byte(declared)}
+				}
+				if form%2 == 1 && declared < 256 {
+					continue
+				}
+				payload := make([]byte, 0, k+len(hdr)+inner)
+				for i := 0; i < k; i++ {
+					payload = append(payload, byte(1+r.Intn(0x7e)))
+				}
+				payload = append(payload, hdr...)
+				body := make([]byte, inner)
+				for i := range body {
+					body[i] = byte(r.Intn(0x80)) // single-byte items, so a list body is well formed too
+				}
+				payload = append(payload, body...)
+				var outer []byte
+				n := len(payload)
+				if n <= 55 {
+					outer = []byte{0xc0 + byte(n)}
+				} else if n < 256 {
+					outer = []byte{0xf8, byte(n)}
+				} else {
+					outer = []byte{0xf9, byte(n >> 8), byte(n)}
+				}
+				enc := append(outer, payload...)
+				addDec(w, st, cv.Lit(enc), "nested-long-overrun", seen)
+				addDec(w, st, cv.Lit(append(append([]byte{}, enc...), 0x01, 0x02, 0x03, 0x04, 0x05)), "nested-long-overrun+trail", seen)
+				// the same element one level deeper
+				deep := append([]byte{0xf9, byte((len(enc) + 1) >> 8), byte(len(enc) + 1), 0x05}, enc...)
+				addDec(w, st, cv.Lit(deep), "nested-long-overrun-deep", seen)
+			}
+		}
+	}
+	// truncated long-form headers nested at an offset (length-of-length bytes cut by the list end)
+	for _, k := range []int{1, 2, 4} {
+		for lol := 1; lol <= 8; lol++ {
+			for cut := 0; cut < lol; cut++ {
+				payload := make([]byte, 0, 16)
+				for i := 0; i < k; i++ {
+					payload = append(payload, byte(1+r.Intn(0x7e)))
+				}
+				payload = append(payload, 0xb7+byte(lol))
+				for i := 0; i < cut; i++ {
+					payload = append(payload, 0x00)
+				}
+				enc := append([]byte{0xc0 + byte(len(payload))}, payload...)
+				addDec(w, st, cv.Lit(enc), "nested-long-hdr-cut", seen)
+				addDec(w, st, cv.Lit(append(append([]byte{}, enc...), 0x00, 0x00, 0x00, 0x00, 0x00, 0x00, 0x00, 0x38)), "nested-long-hdr-cut+trail", seen)
+			}
+		}
+	}
 	// --- decoder: random bytes ---
 	nRand := 300
 	maxLen := 4096
